@@ -258,20 +258,52 @@ def bounded_instance_model(pc, timeout_ms, seed=0, window=5, max_len=3):
             consts[t.get_id()] = t
         if z3.is_app(t):
             stack.extend(t.children())
-    # make the sequences explicit: every sequence constant becomes a concatenation of n fresh elements (n = 1, 0, 2),
-    # so that the instantiated problem is (almost) ground arithmetic; a model of it is a model of the original
-    for n in (1, 0, 2):
-        sub = []
-        pins = []
-        cnt = [0]
+    # make the sequences explicit: every sequence constant becomes a concatenation of fresh elements -- n of them
+    # (n = 1, 0, 2), none for constants that a conjunct says are empty, the same number for constants a conjunct says
+    # have equal lengths -- so that the instantiated problem is (almost) ground; a model of it is a model of the original
+    ids = list(consts)
+    parent = {i: i for i in ids}
 
-        def explicit(sort, depth=0):
+    def find(i):
+        while parent[i] != i:
+            parent[i] = parent[parent[i]]
+            i = parent[i]
+        return i
+
+    def len_of_const(t):
+        if z3.is_app(t) and t.decl().kind() == z3.Z3_OP_SEQ_LENGTH and t.arg(0).get_id() in consts:
+            return t.arg(0).get_id()
+        return None
+
+    forced = {}
+    for f in rest:
+        if not (z3.is_app(f) and f.decl().kind() == z3.Z3_OP_EQ):
+            continue
+        a, b = f.arg(0), f.arg(1)
+        la, lb = len_of_const(a), len_of_const(b)
+        if la is not None and lb is not None:
+            parent[find(la)] = find(lb)
+        elif la is not None and z3.is_int_value(b):
+            forced[la] = b.as_long()
+        elif lb is not None and z3.is_int_value(a):
+            forced[lb] = a.as_long()
+        else:
+            for x, y in ((a, b), (b, a)):
+                if x.get_id() in consts and z3.is_app(y) and y.decl().kind() == z3.Z3_OP_SEQ_EMPTY:
+                    forced[x.get_id()] = 0
+    for n in (1, 0, 2):
+        cnt = [0]
+        glen = {}
+        for i, v in forced.items():
+            glen[find(i)] = v
+
+        def explicit(sort, k, depth=0):
             es = sort.basis()
             elems = []
-            for _ in range(n):
+            for _ in range(k):
                 cnt[0] += 1
                 if es.kind() == z3.Z3_SEQ_SORT and depth < 2:
-                    elems.append(explicit(es, depth + 1))
+                    elems.append(explicit(es, n, depth + 1))
                 else:
                     elems.append(z3.Const(f'bi!e{cnt[0]}', es))
             if not elems:
@@ -279,24 +311,20 @@ def bounded_instance_model(pc, timeout_ms, seed=0, window=5, max_len=3):
             units = [z3.Unit(e) for e in elems]
             return units[0] if len(units) == 1 else z3.Concat(*units)
 
-        for c in consts.values():
-            v = explicit(c.sort())
-            sub.append((c, v))
-        win = n + 1
-        s = _solver(max(1500, timeout_ms // 3), seed)
-        inst = []
-        for f in rest:
-            inst.append(f)
+        sub = [(c, explicit(c.sort(), min(glen.get(find(i), n), 4))) for i, c in consts.items()]
+        win = max([n] + [min(v, 4) for v in glen.values()]) + 1
+        inst = list(rest)
         for f, lo, hi in qs:
             for v in range(-1, win + 1):
                 inst.append(z3.substitute_vars(f.body(), z3.IntVal(v)))
             inst.append(lo >= -1)
             inst.append(hi <= win + 1)
+        s = _solver(max(1500, timeout_ms // 3), seed)
         for g in inst:
             s.add(z3.simplify(z3.substitute(g, *sub)))
         r_ = s.check()
         if os.environ.get('PYVC_DEBUG_BI'):
-            print(f'[bounded-instances] n={n} quantifiers={len(qs)} consts={len(consts)} -> {r_} {s.reason_unknown() if r_ == z3.unknown else ""}', flush=True)
+            print(f'[bounded-instances] n={n} forced={len(forced)} quantifiers={len(qs)} consts={len(consts)} -> {r_} {s.reason_unknown() if r_ == z3.unknown else ""}', flush=True)
         if r_ != z3.sat:
             continue
         m = s.model()
@@ -305,7 +333,7 @@ def bounded_instance_model(pc, timeout_ms, seed=0, window=5, max_len=3):
         for g in inst:
             s2.add(g)
         for c, v in sub:
-            s2.add(c == m.eval(v, model_completion=True))
+            s2.add(c == z3.simplify(m.eval(v, model_completion=True)))
         if s2.check() == z3.sat:
             return s2.model()
     return None
